@@ -77,6 +77,10 @@ def sllNonStandard (v : Nat) : Bool :=
 /-- ARPHRD values whose SLL protocol field the crate interprets -/
 def sllSupportedHw (hw : Nat) : Bool := hw ∈ [1, 770, 778, 803, 824]
 
+/-- length of an 802.1AE SecTAG: 6 octets, + 8 with an SCI, + 2 for the ether type of an
+    unmodified frame (which the crate counts as part of the header) -/
+def secTagLen (sc unmod : Bool) : Nat := 6 + (if sc then 8 else 0) + (if unmod then 2 else 0)
+
 /-- outcome of one step: the packet with everything decoded so far (also in front of a fault),
     the next tag and context, and the fault if this unit is faulty -/
 structure StepR where
@@ -197,7 +201,7 @@ def step (lax : Bool) (g : Mem) (p : Packet) (t : Tag) (c : Ctx) : StepR :=
         if tci / 128 = 1 then bad (mkFault c .content .macsecHeader 0 1)
         else if unmod ∧ sl = 1 then bad (mkFault c .content .macsecHeader 0 1)
         else
-          let hl := 6 + (if sc then 8 else 0) + (if unmod then 2 else 0)
+          let hl := secTagLen sc unmod
           if c.avail < hl then bad (mkFault c .cutShort .macsecHeader hl)
           else
             -- short length: number of octets behind the SecTAG (incl. the ether type), 0 = 48 or more
